@@ -77,7 +77,7 @@ def wiring_ok(p, sd):
     for (i, j) in G.pairs_of(n):
         pr = sd['pairs']['%d%d' % (i, j)]
         clo = p.sys.closure[types[i], types[j]]; U = p.sys.potential[types[i], types[j]]
-        sig = (sd['diam'][i] + sd['diam'][j]) / 2
+        sig = G.pair_sigma(sd, i, j)
         want_usig = pr['pot'][1] if pr['pot'][1] is not None else sig
         Uref = G.mk_pot(pr['pot']); Uref.sigma = want_usig
         with np.errstate(all='ignore'):
@@ -91,7 +91,7 @@ def wiring_ok(p, sd):
 
 def suite_wiring(ctx, case):
     sd = case['sys']
-    s = G.build_system(sd); G.feed(ctx.drv, sd)
+    s = G.build_system(sd, types=labels_of(case, sd['n'])); G.feed(ctx.drv, sd)
     try:
         p = s.createPRISM(); impl = 'ok'
     except Exception as e:
@@ -131,9 +131,13 @@ def suite_wiring(ctx, case):
                  (float(np.nanmax(np.abs(y3 - yf))) if np.all(np.isfinite(y3 - yf)) else float('nan')), key='C01:wiring')
     return p
 
+INT_LABELS = {'int1': [1, 2, 3, 4], 'intperm': [1, 0, 3, 2], 'intrev': [3, 2, 1, 0], 'mixed': ['poly', 0, 2, 'B']}          # legal labels that are valid indices of OTHER positions
+def labels_of(case, n):
+    return None if not case.get('labels') else INT_LABELS[case['labels']][:n]
+
 def suite_cost(ctx, case):
     sd = case['sys']
-    s = G.build_system(sd); G.feed(ctx.drv, sd)
+    s = G.build_system(sd, types=labels_of(case, sd['n'])); G.feed(ctx.drv, sd)
     p = s.createPRISM()
     assert ctx.drv.ask('prism.create') == 'ok'
     for xi, x in enumerate(case['xs']):
@@ -273,15 +277,17 @@ def generate(ctx):
     for _ in range(ctx.n(60, 600)):
         sd = G.gen_system(rng, maxn=3, maxL=ctx.n(32, 128))
         if sd['n'] >= 2 and rng.random() < 0.4: uniformise(rng, sd)
+        if rng.random() < 0.25: G.add_sigma_override(rng, sd)          # a non-additive mixture (diameter.sigma[a,b] = v)
         if rng.random() < 0.2: sd = G.scale_length(sd, rng.choice([1e-9, 1e-10, 1e-3, 1e-7]))          # lengths in metres / other units
-        case = {'sys': sd, 'second': rng.random() < 0.4, 'continue_from_psys': rng.random() < 0.5}
+        case = {'sys': sd, 'second': rng.random() < 0.4, 'continue_from_psys': rng.random() < 0.5, 'labels': rng.choice([None, None, 'int1', 'intperm', 'intrev', 'mixed'])}
         ctx.case('wiring', case, sd['n'] >= 2, tags=tags_of(sd) + (['second-prism'] if case['second'] else [])); suite_wiring(ctx, case)
     for _ in range(ctx.n(60, 500)):
         sd = G.gen_system(rng, maxn=3, maxL=ctx.n(24, 64))
+        if rng.random() < 0.25: G.add_sigma_override(rng, sd)
         if rng.random() < 0.2: sd = G.scale_length(sd, rng.choice([1e-9, 1e-10, 1e-3, 1e-7]))
         xs = [G.gen_x(rng, sd, k) for k in ('zero', rng.choice(['small', 'moderate']), rng.choice(['moderate', 'asym']))]
-        case = {'sys': sd, 'xs': xs}
-        ctx.case('cost', case, True, tags=tags_of(sd)); suite_cost(ctx, case)
+        case = {'sys': sd, 'xs': xs, 'labels': rng.choice([None, None, 'int1', 'intperm', 'intrev', 'mixed'])}
+        ctx.case('cost', case, True, tags=tags_of(sd) + ['labels:%s' % case['labels']]); suite_cost(ctx, case)
     methods = ['krylov', 'hybr', 'lm', 'anderson', 'broyden1', 'df-sane']
     for q in range(ctx.n(18, 150)):
         sd = gen_solvable(rng, maxn=ctx.n(2, 3), maxL=ctx.n(32, 64))
